@@ -338,7 +338,8 @@ func NewShared(prog *ssa.Program, mainPkg *ssa.Package, sizes types.Sizes) *Shar
 	// environment functions replaced by harness-side models (an in-memory file system)
 	for real, model := range map[string]string{
 		"os.MkdirAll": "vfsMkdirAll", "os.CreateTemp": "vfsCreateTemp", "os.Open": "vfsOpen", "os.Create": "vfsCreate",
-		"os.Rename": "vfsRename", "os.Remove": "vfsRemove",
+		"os.Rename": "vfsRename", "os.Remove": "vfsRemove", "os.OpenFile": "vfsOpenFile", "os.Stat": "vfsStat", "os.Lstat": "vfsStat", "os.ReadFile": "vfsReadFile",
+		"(*os.File).Sync": "vfsFileSync",
 		"(*os.File).Name": "vfsFileName", "(*os.File).WriteString": "vfsFileWriteString", "(*os.File).Write": "vfsFileWrite",
 		"(*os.File).Close": "vfsFileClose", "(*os.File).Read": "vfsFileRead",
 	} {
